@@ -383,6 +383,8 @@ func (u *Universe) Prelude() string {
 	b.WriteString("(declare-datatypes ((Iface 0)) (((mkI (itag Int) (ival Int)))))\n")
 	b.WriteString("(declare-fun strlen (Str) Int)\n(declare-fun strcat (Str Str) Str)\n(declare-fun strlt (Str Str) Bool)\n")
 	b.WriteString("(declare-fun faddr (Int Int) Int)\n(declare-fun fbase (Int) Int)\n(declare-fun ffid (Int) Int)\n")
+	// element address of slice position i: uninterpreted so that quantifier triggers can match it
+	b.WriteString("(declare-fun eidx (Int Int) Int)\n(assert (forall ((o Int) (i Int)) (! (= (eidx o i) (+ o i)) :pattern ((eidx o i)))))\n")
 	b.WriteString("(define-fun godiv ((a Int) (b Int)) Int (ite (>= a 0) (ite (> b 0) (div a b) (- (div a (- b)))) (ite (> b 0) (- (div (- a) b)) (div (- a) (- b)))))\n")
 	b.WriteString("(define-fun gomod ((a Int) (b Int)) Int (- a (* b (godiv a b))))\n")
 	b.WriteString("(declare-fun band (Int Int) Int)\n(declare-fun bor (Int Int) Int)\n(declare-fun bxor (Int Int) Int)\n(declare-fun bshl (Int Int) Int)\n(declare-fun bshr (Int Int) Int)\n(declare-fun bandnot (Int Int) Int)\n")
